@@ -44,6 +44,7 @@ type AuthRow struct {
 	Allow     bool   `json:"allow"`
 	Metrics   bool   `json:"metrics"`
 	Idle      bool   `json:"idle"`
+	TLS       bool   `json:"tls"` // a server certificate without a client CA (transport security only)
 	Iface     string `json:"iface"`
 	Method    string `json:"method"`
 	Path      string `json:"path"`
@@ -194,7 +195,7 @@ type authServer struct {
 	https    bool
 }
 
-func startServer(bin string, p *pki, work string, auth string, allow, metrics, idle bool) (*authServer, error) {
+func startServer(bin string, p *pki, work string, auth string, allow, metrics, idle, tlsOnly bool) (*authServer, error) {
 	dir, err := os.MkdirTemp(work, "srv")
 	if err != nil {
 		return nil, err
@@ -211,6 +212,10 @@ func startServer(bin string, p *pki, work string, auth string, allow, metrics, i
 		args = append(args, "--htpasswd_file", ht)
 	case "mtls":
 		args = append(args, "--tls_cert_file", p.serverCert, "--tls_key_file", p.serverKey, "--tls_ca_file", p.caPEM)
+		s.https = true
+	}
+	if tlsOnly && auth != "mtls" {
+		args = append(args, "--tls_cert_file", p.serverCert, "--tls_key_file", p.serverKey)
 		s.https = true
 	}
 	if allow {
@@ -393,12 +398,12 @@ func RunAuth(bin string, rows []AuthRow, seed int64) (runs []AuthRun, viols []dr
 	}
 	type cfgKey struct {
 		auth                 string
-		allow, metrics, idle bool
+		allow, metrics, idle, tls bool
 	}
 	byCfg := map[cfgKey][]AuthRow{}
 	known := map[string]bool{}
 	for _, r := range rows {
-		k := cfgKey{r.Auth, r.Allow, r.Metrics, r.Idle}
+		k := cfgKey{r.Auth, r.Allow, r.Metrics, r.Idle, r.TLS}
 		byCfg[k] = append(byCfg[k], r)
 		if r.Iface == "grpc" {
 			known[r.Method] = true
@@ -419,7 +424,7 @@ func RunAuth(bin string, rows []AuthRow, seed int64) (runs []AuthRun, viols []dr
 	sort.Slice(keys, func(i, j int) bool { return fmt.Sprint(keys[i]) < fmt.Sprint(keys[j]) })
 	n := 0
 	for _, k := range keys {
-		s, e := startServer(bin, p, work, k.auth, k.allow, k.metrics, k.idle)
+		s, e := startServer(bin, p, work, k.auth, k.allow, k.metrics, k.idle, k.tls)
 		if e != nil {
 			return runs, viols, e
 		}
@@ -464,7 +469,7 @@ func RunAuth(bin string, rows []AuthRow, seed int64) (runs []AuthRun, viols []dr
 				}
 				runs = append(runs, run)
 				bad := func(f string, a ...any) {
-					viols = append(viols, drv.Violation{Prop: "C13", What: fmt.Sprintf("auth=%s allow_unauthenticated_reads=%v endpoint_metrics=%v idle_timeout=%v %s %s %s credentials=%s: ", row.Auth, row.Allow, row.Metrics, row.Idle, row.Iface, m, row.Path, row.Cred) + fmt.Sprintf(f, a...), Hist: n})
+					viols = append(viols, drv.Violation{Prop: "C13", What: fmt.Sprintf("auth=%s allow_unauthenticated_reads=%v endpoint_metrics=%v idle_timeout=%v%s %s %s %s credentials=%s: ", row.Auth, row.Allow, row.Metrics, row.Idle, map[bool]string{true: " tls=server-certificate", false: ""}[row.TLS], row.Iface, m, row.Path, row.Cred) + fmt.Sprintf(f, a...), Hist: n})
 				}
 				switch row.Expect {
 				case "refused":
